@@ -134,7 +134,7 @@ pub fn run(tier: Tier) -> i32 {
     let th = tier.thorough();
     verif_cov::reset();
     // S1: complete small scope
-    let n: i128 = if th { 6_000_000 } else { 100_000 };
+    let n: i128 = if th { 6_000_000 } else { 600_000 };
     let small: Vec<i128> = (-n..=n).collect();
     run.par_for(&small, || {}, |&a, l| { for f in 0..=18u8 { case(a, f, l); } });
     run.stage("S1 small scope", json!({"|a|<=": n, "scales": 19}));
